@@ -41,6 +41,22 @@ def hsfz(cword: int, body: bytes) -> bytes:
     return struct.pack("!IH", len(body), cword) + body
 
 
+def _pair(fr: dict[str, Any], src: int, dst: int, ack: bool) -> tuple[int, int]:
+    """address bytes of a frame that is NOT for our pair: random, or differing from ours in exactly one address"""
+    ours = (src, dst) if ack else (dst, src)
+    how = fr.get("pair", "rand")
+    a, b = fr["a"], fr["b"]
+    if how == "first-only-differs":
+        a, b = (ours[0] + 1 + a % 7) & 0xFF, ours[1]
+    elif how == "second-only-differs":
+        a, b = ours[0], (ours[1] + 1 + b % 7) & 0xFF
+    elif how == "swapped" and src != dst:
+        a, b = ours[1], ours[0]
+    if (a, b) == ours:
+        a = (a + 1) & 0xFF
+    return a, b
+
+
 def enc(fr: dict[str, Any], src: int, dst: int, req: bytes | None) -> bytes:
     t = fr["t"]
     if t == "ack":
@@ -54,11 +70,11 @@ def enc(fr: dict[str, Any], src: int, dst: int, req: bytes | None) -> bytes:
     if t == "ack-long-echo":
         return hsfz(2, bytes([src, dst]) + (req or b"")[:5] + b"\x00")
     if t == "ack-wrong-pair":
-        return hsfz(2, bytes([fr["a"], fr["b"]]) + (req or b"")[:5])
+        return hsfz(2, bytes(_pair(fr, src, dst, ack=True)) + (req or b"")[:5])
     if t == "data":
         return hsfz(1, bytes([dst, src]) + fr["p"])
     if t == "data-other":
-        return hsfz(1, bytes([fr["a"], fr["b"]]) + fr["p"])
+        return hsfz(1, bytes(_pair(fr, src, dst, ack=False)) + fr["p"])
     if t == "alive":
         return hsfz(0x12, fr["p"])
     if t == "short":
@@ -103,12 +119,13 @@ def frame_s(draw, reactive: bool) -> dict[str, Any]:
         return {"t": k, "i": draw(st.integers(0, 4))}
     if k == "ack-short-echo":
         return {"t": k, "n": draw(st.integers(0, 4))}
+    pair = draw(st.sampled_from(["rand", "first-only-differs", "second-only-differs", "swapped"]))
     if k == "ack-wrong-pair":
-        return {"t": k, "a": draw(addr), "b": draw(addr)}
+        return {"t": k, "a": draw(addr), "b": draw(addr), "pair": pair}
     if k == "data":
         return {"t": "data", "p": draw(payload_s)}
     if k == "data-other":
-        return {"t": "data-other", "a": draw(addr), "b": draw(addr), "p": draw(payload_s)}
+        return {"t": "data-other", "a": draw(addr), "b": draw(addr), "pair": pair, "p": draw(payload_s)}
     if k == "alive":
         return {"t": "alive", "p": draw(st.binary(max_size=4))}
     if k == "short":
